@@ -21,7 +21,7 @@ def cfg_hook(rng, cfg, fam, i):
 
 def gen_cases(tier, seed):
     fams = ["cpu-mix", "cpu-mix", "exact-dag", "alias-stress", "exact-chain", "approx-tail", "stripe-stress", "lut-stress", "cpu-mix"]
-    return campaign.gen_cases(tier, seed, 12, 420, 10000, families=fams, cfg_hook=cfg_hook, extra=[("shape-ops", 24, 500), ("approx-tail2", 12, 300)])
+    return campaign.gen_cases(tier, seed, 12, 420, 10000, families=fams, cfg_hook=cfg_hook, extra=[("shape-ops", 24, 500), ("approx-tail2", 12, 300), ("grouped-conv", 8, 200)])
 
 
 def parse_reports(c):
